@@ -59,8 +59,31 @@ def gen_points(rng, n):
             # how the command line spells the output file (absolute, ./relative, through a symlinked directory, and - onto
             # an existing output - with a literal `~`)
             c["out"] = fam_gen.draw_out(rng, c["existing"])
+            # the hash seed of the child interpreter (0 = the one the harness itself runs under)
+            c["hashseed"] = 0 if rng.random() < 0.4 else rng.randrange(1, 100000)
         pts.append(c)
     return pts
+
+
+def sweep_points(rng, pts, k, seeds_per_point=2):
+    """the same invocation repeated in fresh interpreters under other PYTHONHASHSEED values: for up to k of the points on a
+    fresh output (those with a class documenting attributes of its own first: there the parameters come from two
+    sources that have to be merged in order; then the others in drawn order), `seeds_per_point` command-line twins each
+    with a drawn hash seed.  A twin is a point like any other: the property is evaluated in full on what its process
+    wrote (the names, the order of the definitions and of the parameters of each must be those of the source in EVERY
+    process)"""
+    fresh = [p for p in pts if p["existing"] is None and p["module"]["entries"]]
+    rng.shuffle(fresh)
+    fresh.sort(key=lambda p: not any(e["feat"].get("cvars") for e in p["module"]["entries"]))   # stable
+    out = []
+    for p in fresh[:k]:
+        for s in rng.sample(range(1, 100000), seeds_per_point):
+            t = copy.deepcopy(p)
+            t["route"], t["hashseed"], t["sweep_of"] = "cli", s, p["uid"]
+            t.pop("out", None)
+            t["uid"] = "%sh%d" % (p["uid"], s)
+            out.append(t)
+    return out
 
 
 def feats_of(case):
@@ -113,7 +136,8 @@ def _cli_cmd(case, ws):
 
 
 def _run_cli(case, ws):
-    env = dict(os.environ, PYTHONPATH=REPO + os.pathsep + ws["tmp"], PYTHONHASHSEED="0", **ws.get("env", {}))
+    env = dict(os.environ, PYTHONPATH=REPO + os.pathsep + ws["tmp"], PYTHONHASHSEED=str(case.get("hashseed", 0)),
+               **ws.get("env", {}))
     p = subprocess.run(_cli_cmd(case, ws), env=env, stdout=subprocess.PIPE, stderr=subprocess.PIPE, timeout=120,
                        cwd=ws.get("cwd") or ws["tmp"])
     if p.returncode == 0:
@@ -183,13 +207,23 @@ def evaluate(case, ws, exc):
     if len(defs) != n:
         return False, "fewer statements than entries"
     want_cls = ast.ClassDef if case["type_"] == "class" else ast.FunctionDef
-    for d, nm, (k, obj) in zip(defs, names, items):
+    feats = [e["feat"] for e in case["module"]["entries"]]
+    for j, (d, nm, (k, obj)) in enumerate(zip(defs, names, items)):
         if not isinstance(d, want_cls) or d.name != nm:
             return False, "definition for %r is %s %r, expected %s %r" % (
                 k, type(d).__name__, getattr(d, "name", None), want_cls.__name__, nm)
         got, want = _def_params(d, case["type_"]), _param_names(obj)
+        # attributes the class documents on itself (`:cvar` lines; never a parameter of __init__ here) belong to the
+        # interface next to the parameters of __init__: each once, in the documented order; the parameters of __init__
+        # all of them, in the order of the signature
+        cvars = [c for c in (feats[j].get("cvars") or [] if j < len(feats) else []) if c not in want]
+        if cvars:
+            got_cv, got = [g for g in got if g in cvars], [g for g in got if g not in cvars]
+            if got_cv != cvars:
+                return False, "interface of %r: documented attributes %r, the class documents %r" % (nm, got_cv, cvars)
         if got != want:
-            return False, "interface of %r: parameters %r, source object has %r" % (nm, got, want)
+            return False, "interface of %r: parameters %r, source object has %r%s" % (
+                nm, got, want, " (besides the documented attributes %r)" % cvars if cvars else "")
     header = body[:len(body) - 1 - n]
     if any(isinstance(s, (ast.ClassDef, ast.FunctionDef)) and s.name in names for s in header):
         return False, "a generated name is defined more than once"
@@ -248,8 +282,9 @@ def _api_twin(case):
     """the same invocation through the API on a fresh output (what the model's tabulated inputs are taken from)"""
     c = copy.deepcopy(case)
     c.pop("route", None)
+    c.pop("hashseed", None)       # the interpreter's hash seed is no input of the model: gen must not depend on it
     c["existing"] = None
-    c["uid"] = case["uid"] + "t"
+    c["uid"] = c.pop("sweep_of", case["uid"]) + "t"     # a hash-seed twin shares the observation of the point it repeats
     return c
 
 
@@ -382,6 +417,7 @@ def _decode_class(c):
 def oracle(rng, tier):
     n = 260 if tier == "quick" else 3000
     pts = gen_points(rng, n)
+    pts += sweep_points(rng, pts, 30 if tier == "quick" else 300, 2 if tier == "quick" else 4)
     wit = witnesses()
     allpts = pts + [w for _, w in wit]
     with concurrent.futures.ThreadPoolExecutor(max_workers=8) as ex:
@@ -409,6 +445,14 @@ def oracle(rng, tier):
             continue
         tag = "%s:%s:%s" % (p.get("route", "api"), p["type_"], "existing" if p["existing"] is not None else "fresh")
         hist[("holds" if ok else "fails") + ":" + (cls or ("in-guard" if guard else "no-class")) + ":" + tag] += 1
+        if "sweep_of" in p:
+            hist["hash-seed-sweep:" + ("holds" if ok else "fails")] += 1
+        if p.get("route") == "cli":
+            hist["cli-hash-seed:" + ("0" if not p.get("hashseed") else "other")] += 1
+        for e in p["module"]["entries"]:
+            if e["feat"].get("cvars"):
+                hist["entry-class-documents-attributes:%d-attrs+%d-init-params:%s" % (
+                    len(e["feat"]["cvars"]), min(len(e["feat"]["params"]), 4), "holds" if ok else "fails")] += 1
         for e in p["module"]["entries"]:
             if e["feat"].get("nested"):
                 hist["entry-with-nested:%s:%s" % (e["feat"]["nested"], "holds" if ok else "fails")] += 1
@@ -455,10 +499,12 @@ def oracle(rng, tier):
         "evaluations": len(allpts),
         "distinct_nontrivial": len(seen),
         "rule": "points = generated input module (1..4 classes with __init__ / functions, documented or not, annotated or "
-                "not; about 3 entries in 10 contain nested definitions that are no entries: a helper class with its own "
+                "not; about 3 documented classes in 10 document one to three attributes on the class (:cvar) while __init__ adds two to six "
+                "further parameters; about 3 entries in 10 contain nested definitions that are no entries: a helper class with its own "
                 "__init__ before / after the class's __init__, two levels deep or local to a method, a function local to a "
                 "method or to the entry function) x type x name template x prepend x imports-from-file x route (API in-process, CLI in a child "
-                "process) x existing output; non-trivial = distinct point inside guard_C19 on a fresh output where the "
+                "process under PYTHONHASHSEED 0 or a drawn one) x existing output; plus, for 30 (quick) / 300 of the points, "
+                "command-line twins in fresh interpreters under 2 / 4 other drawn hash seeds, judged like any point; non-trivial = distinct point inside guard_C19 on a fresh output where the "
                 "property was evaluated in full (parse, names, order, interface, __all__, header) and holds",
         "failures": failures,
         "model_impl_property_disagreements": disagree,
